@@ -15,12 +15,18 @@ def run(tier, seed, replay):
     if not r.ok:
         raise lib.Broken("Batch.tla: %s violated -- the specification itself is wrong" % r.violated)
     rows = sorted(set(json.loads(x) for x in r.printed))
+    # key sets of up to 3 keys (a duplicate behind a hash collision needs three), without adversarial replies
+    rk = lib.run_tlc(sdir, "MC_Batch.tla", "MC_Batch_keys.cfg", timeout=1800)
+    if not rk.ok:
+        raise lib.Broken("Batch.tla (keys): %s violated" % rk.violated)
+    keyrows = sorted(set(json.loads(x) for x in rk.printed) - set(rows))
     if tier == "quick":
         import random
         rng = random.Random(seed)
         dup = [x for x in rows if '"replied":false' in x]
         rest = [x for x in rows if '"replied":true' in x]
         rows = dup + rng.sample(rest, min(len(rest), 30000))
+    rows = rows + keyrows
     bf = os.path.join(scr.path, "batch.ndjson")
     with open(bf, "w") as f:
         for x in rows:
@@ -33,8 +39,9 @@ def run(tier, seed, replay):
         for x in crows:
             f.write(x + "\n")
     cov["tlc"] = r.summary()
-    cov["states"] = r.distinct
-    cov["transitions"] = r.generated
+    cov["tlc_keys"] = rk.summary()
+    cov["states"] = r.distinct + rk.distinct
+    cov["transitions"] = r.generated + rk.generated
     cov["behaviours_exported"] = len(rows)
     cov["samples"].append(json.loads(rows[len(rows) // 2]))
 
@@ -57,7 +64,7 @@ def run(tier, seed, replay):
     cov["traces_validated_against_impl"] = 0
     cov["evaluations"] = totals.get("c16_calls", 0) + totals.get("c16_behaviours", 0) + totals.get("calls", 0)
     cov["distinct_nontrivial"] = len(rows)
-    cov["rule"] = "one case = one behaviour of Batch.tla: caller's list of <= 2 keys over 3 key parts (two of them colliding in the hash; contents 'a,b', 'a%2Cb', 'a b(:)'') x params, then an adversarial reply (each map any set of <= 2 wire keys over all parts, params and two escapings, including never-requested keys); replayed on the key set, the generated complex-key client and the generated string-key client; plus every honest batch call of C02 checked for key identity"
+    cov["rule"] = "one case = one behaviour of Batch.tla: caller's list of <= 2 keys (<= 3 without adversarial reply) over 3 key parts (two of them colliding in the hash; contents 'a,b', 'a%2Cb', 'a b(:)'') x params, then an adversarial reply (each map any set of <= 2 wire keys over all parts, params and two escapings, including never-requested keys); replayed on the key set, the generated complex-key client and the generated string-key client; plus every honest batch call of C02 checked for key identity"
     cov["exhaustive"] = tier != "quick"
     code, nv = verdict.finish()
     lib.write_evidence(PROP, tier, seed, cov, [
